@@ -576,8 +576,8 @@ def decompress_destripe_cbin(
                 chunk = spatial_fcn(chunk)  # apply the k-filter / CAR
 
             # add back sync trace and save
-            chunk = np.r_[chunk, _sr[first_s:last_s, ncv:].T].T
-            chunk = chunk * mute_saturation[:, np.newaxis]
+            # the mute gain applies to the voltage traces only: the sync words are copied as they are
+            chunk = np.r_[chunk * mute_saturation, _sr[first_s:last_s, ncv:].T].T
 
             # Compute rms - we get it before applying the whitening
             if compute_rms:
